@@ -107,8 +107,42 @@ def structure_rules(repo, res):
     res.check(seen == want, "CHAIN", f"CHAIN:{fq}:transitions", "transitions = " + " <- ".join(seen), f"{fn.file}:{site['l']}")
     st = A.resolve(P.ctor_field(site, "starting_state"), env)
     ac = A.resolve(P.ctor_field(site, "accepting_states"), env)
-    res.check(st[0] == "proj" and st[2] == 0 and "renumber_states" in A.show(st), "CHAIN", f"CHAIN:{fq}:starting_state", f"starting_state = {A.show(st)[:70]}", f"{fn.file}:{site['l']}")
-    res.check(ac[0] == "proj" and ac[2] == 2 and "renumber_states" in A.show(ac), "CHAIN", f"CHAIN:{fq}:accepting_states", f"accepting_states = {A.show(ac)[:70]}", f"{fn.file}:{site['l']}")
+    # the component of renumber_states' result that is taken (by position in a tuple, or by name in a struct) must be the one
+    # renumber_states computes from its own start / accepting parameter
+    rfn = repo.fn("dfa::renumber_states")
+
+    def component_from(term, want_param):
+        sel = None
+        if term[0] == "proj" and "renumber_states" in A.show(term):
+            sel = term[2]
+        elif term[0] == "bind" and "renumber_states" in A.show(term):
+            sel = term[2]
+        if sel is None or rfn is None:
+            return False
+        tail = rfn.body
+        while tail.get("k") == "Block" and tail.get("stmts") and tail["stmts"][-1].get("k") == "ExprStmt" and not tail["stmts"][-1].get("semi"):
+            tail = tail["stmts"][-1]["expr"]
+        comp = None
+        if tail.get("k") == "Tuple" and isinstance(sel, int) and sel < len(tail["elems"]):
+            comp = tail["elems"][sel]
+        elif tail.get("k") == "Struct":
+            comp = next((fi["expr"] for fi in tail["fields"] if fi["name"] == str(sel)), None)
+        if comp is None:
+            return False
+        renvs = A.collect_envs(rfn)
+        t = A.resolve(comp, renvs.get(id(comp)) or renvs.get(id(tail)) or A.fn_env(rfn))
+        found = []
+
+        def visit(x):
+            if isinstance(x, tuple):
+                if x and x[0] == "param" and x[1] == want_param:
+                    found.append(x)
+                for y in x:
+                    visit(y)
+        visit(t)
+        return bool(found)
+    res.check(component_from(st, 0), "CHAIN", f"CHAIN:{fq}:starting_state", f"starting_state = {A.show(st)[:70]}", f"{fn.file}:{site['l']}")
+    res.check(component_from(ac, 2), "CHAIN", f"CHAIN:{fq}:accepting_states", f"accepting_states = {A.show(ac)[:70]}", f"{fn.file}:{site['l']}")
     for fld in ("inputs", "subdfas"):
         p = A.resolve(P.ctor_field(site, fld), env)
         res.check(p == ("field", ("param", 0, param), fld), "CHAIN", f"CHAIN:{fq}:{fld}", f"{fld} = {A.show(p)}", f"{fn.file}:{site['l']}")
